@@ -25,7 +25,7 @@ fn same(v: &Option<Violation>, want: &str) -> bool {
 /// Returns the minimised replay file (None if the failure does not reproduce at all) and a note.
 pub fn confirm_and_minimise(mut rf: ReplayFile, _thorough: bool) -> (Option<ReplayFile>, String) {
     let want = rf.expect.oracle.clone();
-    if rf.profile == "corrupt" || rf.profile == "ysync" {
+    if rf.profile == "corrupt" {
         return crate::monitors::minimise_special(rf);
     }
     // 1. does the explicit trace reproduce the verdict (replay mode)?
